@@ -92,6 +92,10 @@ pub enum D {
     ExtraZip64,
     ExtraTruncated,
     ExtraOversize,
+    /// one 3-byte record with this header ID (reserved or not: the model decides)
+    ExtraId(u16),
+    /// a valid record followed by a record with this header ID
+    ExtraIdSecond(u16),
 }
 impl D {
     fn bytes(&self) -> Vec<u8> {
@@ -111,6 +115,12 @@ impl D {
             D::ExtraZip64 => rec(0x0001, 8),
             D::ExtraTruncated => vec![0xef, 0xbe, 9, 0, 1, 2],
             D::ExtraOversize => rec(0xbeef, 65535),
+            D::ExtraId(id) => rec(*id, 3),
+            D::ExtraIdSecond(id) => {
+                let mut v = rec(0xbeef, 2);
+                v.extend(rec(*id, 1));
+                v
+            }
         }
     }
 }
@@ -130,6 +140,12 @@ pub enum Call {
     RawCopy(u8, bool),
     Flush,
     Finish,
+    /// start_file (0) / add_directory (1) / add_symlink (2) with a name of 65536 + k bytes: cannot be represented
+    StartLong(u8, u8),
+}
+
+fn long_name(k: u8) -> String {
+    "L".repeat(65536 + (k as usize % 3) * 7)
 }
 
 fn name(i: u8) -> String {
@@ -152,6 +168,9 @@ enum St {
     ExtraLocal { buf: Vec<u8>, bad_opt: bool, large: bool },
     ExtraCentral { buf: Vec<u8>, large: bool },
     AfterRaw,
+    /// after a refused over-long name: the previous entry is complete (whether the writer closed it or
+    /// left it open is not documented, so a following write() may go either way)
+    JustClosed,
     Finished,
     Unspecified,
 }
@@ -247,7 +266,7 @@ impl Model {
                     buf.extend_from_slice(&d.bytes());
                     Expect::Ok
                 }
-                St::AfterRaw => {
+                St::AfterRaw | St::JustClosed => {
                     self.st = St::Unspecified;
                     Expect::Either
                 }
@@ -390,6 +409,24 @@ impl Model {
                 self.st = St::AfterRaw;
                 Expect::Ok
             }
+            Call::StartLong(..) => {
+                // must be refused; whether the refusal leaves the writer untouched or has already
+                // closed the previous entry is not documented: both are modelled
+                match self.st.clone() {
+                    St::Finished => Expect::Err,
+                    St::ExtraLocal { buf, large, .. } | St::ExtraCentral { buf, large } => {
+                        if extra_valid(&buf, large) {
+                            // pending extra data either still open or already ended
+                            self.st = St::Unspecified;
+                        }
+                        Expect::Err
+                    }
+                    _ => {
+                        self.st = St::JustClosed;
+                        Expect::Err
+                    }
+                }
+            }
             Call::Finish => {
                 if self.comment.len() > 65535 {
                     // must be refused; what state the writer is left in is not documented
@@ -463,6 +500,11 @@ pub fn check_sequence(seq: &[Call], info: &mut Info) -> Result<(), String> {
                 }
             }
             Call::Flush => w.flush().map_err(|e| e.to_string()),
+            Call::StartLong(kind, k) => match kind % 3 {
+                0 => w.start_file(long_name(*k), FileOptions::default().last_modified_time(zip::DateTime::default())).map_err(|e| e.to_string()),
+                1 => w.add_directory(long_name(*k), FileOptions::default().last_modified_time(zip::DateTime::default())).map_err(|e| e.to_string()),
+                _ => w.add_symlink(long_name(*k), "t", FileOptions::default().last_modified_time(zip::DateTime::default())).map_err(|e| e.to_string()),
+            },
             Call::Finish => match w.finish() {
                 Ok(c) => {
                     out = Some(c.into_inner());
@@ -571,6 +613,7 @@ fn alphabet() -> Vec<Call> {
         Call::Finish,
         Call::SetComment(1),
         Call::StartEncrypted(7),
+        Call::StartLong(0, 0),
     ]
 }
 
@@ -585,7 +628,8 @@ fn any_o() -> BoxedStrategy<O> {
 }
 
 fn any_call() -> BoxedStrategy<Call> {
-    let d = prop_oneof![4 => Just(D::Plain), 1 => Just(D::Empty), 1 => Just(D::Big), 3 => Just(D::ExtraValid), 2 => Just(D::ExtraValid2), 1 => Just(D::ExtraReserved), 1 => Just(D::ExtraZip64), 1 => Just(D::ExtraTruncated), 1 => Just(D::ExtraOversize)];
+    let d = prop_oneof![4 => Just(D::Plain), 1 => Just(D::Empty), 1 => Just(D::Big), 3 => Just(D::ExtraValid), 2 => Just(D::ExtraValid2), 1 => Just(D::ExtraReserved), 1 => Just(D::ExtraZip64), 1 => Just(D::ExtraTruncated), 1 => Just(D::ExtraOversize),
+        1 => reserved_id().prop_map(D::ExtraId), 1 => reserved_id().prop_map(D::ExtraIdSecond), 1 => any::<u16>().prop_map(D::ExtraId)];
     prop_oneof![
         5 => (any::<u8>(), any_o()).prop_map(|(n, o)| Call::StartFile(n, o)),
         1 => any::<u8>().prop_map(Call::StartEncrypted),
@@ -601,15 +645,21 @@ fn any_call() -> BoxedStrategy<Call> {
         2 => (any::<u8>(), any::<bool>()).prop_map(|(k, r)| Call::RawCopy(k, r)),
         1 => Just(Call::Flush),
         1 => Just(Call::Finish),
+        1 => (0u8..3, 0u8..3).prop_map(|(a, b)| Call::StartLong(a, b)),
     ]
     .boxed()
+}
+
+/// every header ID the documentation reserves: 0..=31 and the APPNOTE-registered ones
+fn reserved_id() -> BoxedStrategy<u16> {
+    (0usize..(32 + crate::gen::REGISTERED_IDS.len())).prop_map(|i| if i < 32 { i as u16 } else { crate::gen::REGISTERED_IDS[i - 32] }).boxed()
 }
 
 #[derive(Clone, Debug, Serialize, Deserialize, Hash)]
 pub struct Seq(pub Vec<Call>);
 
 pub fn run(ctx: &mut Ctx) {
-    ctx.rule("exhaustive: EVERY sequence of up to D calls (quick 4, thorough 6) over a 17-letter alphabet covering the whole writer API (start_file good / bad level / unsupported method / encrypted, start_file_with_extra_data good / bad, start_file_aligned, write of plain data / valid extra record / reserved-id record, end_extra_data, end_local_start_central_extra_data, add_directory, add_symlink, raw copy, set_comment, finish), each followed by finish() and drop; random: sequences of up to 200 calls over the full parameter domains (6 methods x 4 level classes x large_file, 9 data shapes incl. ZIP64-id/truncated/oversize extra records, alignments, comments up to 65536 bytes). Oracle: executable model of the documented state machine - no call panics; documented misuse returns Err; calls valid in their state return Ok; whenever finish() succeeds on a history without unspecified steps the archive parses strictly and holds exactly the successfully created entries with exactly the accepted bytes. Non-trivial = the sequence contains at least one expected-Err call and at least one created entry; enumerated sequences are distinct by construction.");
+    ctx.rule("exhaustive: EVERY sequence of up to D calls (quick 4, thorough 6) over an 18-letter alphabet covering the whole writer API (start_file good / bad level / unsupported method / encrypted, start_file_with_extra_data good / bad, start_file_aligned, write of plain data / valid extra record / reserved-id record, end_extra_data, end_local_start_central_extra_data, add_directory, add_symlink, raw copy, set_comment, finish, start_file with an unrepresentable 65536-byte name), each followed by finish() and drop; random: sequences of up to 200 calls over the full parameter domains (6 methods x 4 level classes x large_file, 9 data shapes incl. ZIP64-id/truncated/oversize extra records, alignments, comments up to 65536 bytes, names of 65536+ bytes for start_file/add_directory/add_symlink, records with every reserved header ID). extra_ids: every 16-bit header ID x {only record, second record} x {local, central-only} (exhaustive). Oracle: executable model of the documented state machine - no call panics; documented misuse returns Err; calls valid in their state return Ok; whenever finish() succeeds on a history without unspecified steps the archive parses strictly and holds exactly the successfully created entries with exactly the accepted bytes. Non-trivial = the sequence contains at least one expected-Err call and at least one created entry; enumerated sequences are distinct by construction.");
     ctx.assume("undocumented-but-accepted inputs (Stored with an explicit level, Zstd levels far below -7, a second end_local_start_central_extra_data, write after a raw copy, alignment > 32768, flush) are 'either outcome, no panic' and end the end-claim for that history");
     if let Some(c) = ctx.replay_case("fuzz_raw") {
         let bytes = crate::util::unhex(c["bytes"].as_str().unwrap_or("")).unwrap_or_default();
@@ -647,6 +697,24 @@ pub fn run(ctx: &mut Ctx) {
             }
             v.reverse();
             Seq(v)
+        },
+        &|s: &Seq, info: &mut Info| Verdict::from_result(check_sequence(&s.0, info)),
+    );
+    // EVERY 16-bit header ID, as the only record / behind a valid record, in the local and in the
+    // central-only extra data: reserved IDs (0..=31, the APPNOTE-registered ones, ZIP64) must be refused,
+    // every other ID must be accepted and the finished archive must hold the entry
+    let good = O { m: M::Stored, l: L::None, large: false };
+    ctx.enumerate::<Seq>(
+        "extra_ids",
+        65536 * 4,
+        &|k| {
+            let id = (k / 4) as u16;
+            let d = if k % 2 == 0 { D::ExtraId(id) } else { D::ExtraIdSecond(id) };
+            if (k / 2) % 2 == 0 {
+                Seq(vec![Call::StartExtra(0, good), Call::Write(d), Call::EndExtra, Call::Write(D::Plain), Call::AddDir(1, good)])
+            } else {
+                Seq(vec![Call::StartExtra(0, good), Call::EndLocalStartCentral, Call::Write(d), Call::EndExtra, Call::Write(D::Plain), Call::AddDir(1, good)])
+            }
         },
         &|s: &Seq, info: &mut Info| Verdict::from_result(check_sequence(&s.0, info)),
     );
